@@ -111,7 +111,7 @@ theorem sphTrianglesCompute_of_check (h : memoSphTotalCheck = true) : SphTriangl
   rewrite [List.all_eq_true] at h1
   have h2 := h1 i (List.mem_range.2 (by omega))
   rewrite [List.all_eq_true] at h2
-  have h3 := h2 r (by cases r <;> simp)
+  have h3 := h2 r (by cases r; exact List.mem_cons_self; exact List.mem_cons_of_mem _ List.mem_cons_self)
   rewrite [computeSphericalTriangle_eq_memo i o r hi ho]
   have h3' : (match memoSphFrom (memoParams.faceVal ⟨i, r, true⟩) ⟨o, i, r⟩ with
       | (.ok _, n) => decide (n ≤ 3)
@@ -136,7 +136,7 @@ theorem id_calls_ok_of_check (h : memoSphTotalCheck = true) (id : Nat) (hd : ∃
 
 example : Inv memoParams (init : MemoState FaceTriangle SphTriangle) := inv_init
 example : ((call memoParams init (.inv 0.0 0.0 200)).2).Within (ProjErr 200) (fun _ => False) :=
-  (memo_call_outcomes _ inv_init _).1
+  (memo_call_outcomes init inv_init (.inv 0.0 0.0 200)).1
 example (x y : Float) : (pureCall memoParams (.inv x y 12)) = .err .invalidOrigin := by
   unfold pureCall
   rewrite [if_pos (by rewrite [memoParams_classify_origin]; exact Nat.le_of_eq origins_length)]
